@@ -1,5 +1,6 @@
 (* C05 — recency order is exact: accesses promote, observations do not. *)
-Require Import LruV.A.OrderA LruV.B.OpsProps.
+Require Import LruV.A.OrderA LruV.A.HistoryA LruV.B.OpsProps LruV.B.ReachB.
+Require Import Sorted.
 Require Import LruV.B.StepB LruV.B.RefineLemmas LruV.B.RefineB LruV.B.CorollariesB.
 
 (* For EVERY operation, state and oracle: the keys after the step are the surviving old keys in their
@@ -79,6 +80,48 @@ Theorem C05_pointer_level_iteration : forall E VS b oB, RIb b -> KU b ->
   stepB E VS b DebugFmt oB = Some (b, OItems (map (fun e => Some (kv e)) (ents (absB b))), ev0).
 Proof. exact iteration_pointer_level. Qed.
 
+(* THE PROPERTY IN ITS OWN WORDS, FOR EVERY HISTORY: after any sequence of calls, of any length, from `new` /
+   `with_capacity`, the order reported from least- to most-recently-used is the order of LAST ACCESS: the keys are
+   strictly increasing in the time (call number) of their last access, where `accessed` reads the accessed key off
+   the call and its result — successful insert / try_insert, get / get_entry finding the key, touch, get_lru, successful
+   mutate; every other call (peek*, contains, iteration, Debug, rejected insertions, retain, removals, capacity
+   operations, a too-large mutate) accesses nothing.  The oracle (hashbrown's tombstone and allocation behaviour) is
+   arbitrary at every step. *)
+Theorem C05_order_of_last_access : forall E VS, 0 < E -> VS <= E -> forall h s, Hist E VS h s ->
+  StronglySorted (by_last_access h) (kids (ents s)) /\ forall q, In q (kids (ents s)) -> (0 < last_access h q)%nat.
+Proof. exact order_is_last_access. Qed.
+Check C05_order_of_last_access : forall E VS, 0 < E -> VS <= E -> forall h s, Hist E VS h s ->
+  StronglySorted (fun a b => (last_access h a < last_access h b)%nat) (kids (ents s)) /\ forall q, In q (kids (ents s)) -> (0 < last_access h q)%nat.
+
+(* every reachable state has a history, also at pointer level: the statement is about every state of the heap-of-nodes model *)
+Theorem C05_history_pointer_level : forall E VS, 0 < E -> VS <= E -> forall b, ReachB E VS b ->
+  exists h, Hist E VS h (absB b) /\ StronglySorted (by_last_access h) (kids (ents (absB b))).
+Proof.
+  intros E VS HE HV b HR. destruct (reachB_sound E VS HE HV b HR) as [_ HRa].
+  destruct (reach_hist E VS _ HRa) as [h Hh]. exists h. split; [exact Hh|]. exact (proj1 (order_is_last_access E VS HE HV h _ Hh)).
+Qed.
+
+(* a history exists and the statement is not vacuous: insert 1, insert 2, insert 3, get 1, peek 2 -> order 2 3 1 with
+   last-access times 2 < 3 < 4 (the peek, call 5, does not count) *)
+Example C05_history_example :
+  let o := {| o_tomb := 0; o_reuse := false; o_alloc := true |} in
+  exists h s, Hist 72 24 h s /\ length h = 5%nat /\ kids (ents s) = [2; 3; 1] /\ map (last_access h) [2; 3; 1] = [2; 3; 4]%nat.
+Proof.
+  cbv zeta. pose (o := {| o_tomb := 0; o_reuse := false; o_alloc := true |}).
+  assert (H0 : exists s0, new_cache 72 1000 4 = Some s0) by (eexists; vm_compute; reflexivity). destruct H0 as [s0 H0].
+  pose proof H0 as H0'. vm_compute in H0'. injection H0' as <-.
+  eexists _, _. split; [|split; [|split]].
+  - eapply (hist_step 72 24 _ _ (Peek 2) o). eapply (hist_step 72 24 _ _ (Get 1) o).
+    eapply (hist_step 72 24 _ _ (Insert {| kid := 3; ktok := 7; kheap := 0 |} {| vtok := 6; vtag := 3; vheap := 0 |}) o).
+    eapply (hist_step 72 24 _ _ (Insert {| kid := 2; ktok := 5; kheap := 0 |} {| vtok := 4; vtag := 2; vheap := 0 |}) o).
+    eapply (hist_step 72 24 _ _ (Insert {| kid := 1; ktok := 3; kheap := 0 |} {| vtok := 2; vtag := 1; vheap := 0 |}) o).
+    eapply (hist_new 72 24 1000 4); [reflexivity|exact H0].
+    all: try (vm_compute; reflexivity). all: try exact I.
+  - reflexivity.
+  - reflexivity.
+  - reflexivity.
+Qed.
+
 Print Assumptions C05_order.
 Print Assumptions C05_observers.
 Print Assumptions C05_peeks.
@@ -90,3 +133,5 @@ Print Assumptions C05_touch_refines.
 Print Assumptions C05_remove_refines.
 Print Assumptions C05_lru_is_head.
 Print Assumptions C05_pointer_level_iteration.
+Print Assumptions C05_order_of_last_access.
+Print Assumptions C05_history_pointer_level.
